@@ -3,7 +3,6 @@
 use crate::ast::*;
 use crate::eval::*;
 use crate::hc::HC;
-use crate::with_k;
 use bio_seq::kmer::KmerStorage;
 use bio_seq::prelude::*;
 use std::marker::PhantomData;
@@ -62,70 +61,53 @@ fn val(t: &mut Toks) -> R<u128> {
     t.next()?.parse::<u128>().map_err(|e| Fail::BadOp(e.to_string()))
 }
 
+/// pre-evaluated arguments of a k-mer operation (so that the code instantiated
+/// per `(codec, K, storage)` stays small)
+pub struct KArgs<'a, A: HC> {
+    pub v: u128,
+    pub v2: u128,
+    pub n: usize,
+    pub text: String,
+    pub pairing: String,
+    pub slice: Option<&'a SeqSlice<A>>,
+    pub seq: Option<Seq<A>>,
+}
+
 /// operations available for every storage type
-fn op_any<A: HC, const K: usize, S: HS>(op: &str, t: &mut Toks) -> R<String> {
+pub fn op_any<A: HC, const K: usize, S: HS>(op: &str, a: &KArgs<A>) -> R<String> {
     if K * A::BITS as usize > S::SBITS {
         return Err(Fail::Unsup);
     }
     Ok(match op {
-        "try" => {
-            let s = parse_s(t)?;
-            eval_s::<A, _>(&s, &mut |x| Ok(Kmer::<A, K, S>::try_from(x)?.bs.to_u128().to_string()))?
-        }
-        "unsafefrom" => {
-            let s = parse_s(t)?;
-            eval_s::<A, _>(&s, &mut |x| Ok(Kmer::<A, K, S>::unsafe_from_seqslice(x).bs.to_u128().to_string()))?
-        }
-        "fromstr" => {
-            let h = t.hex()?;
-            let txt = String::from_utf8(h).map_err(|_| Fail::BadOp("utf8".into()))?;
-            Kmer::<A, K, S>::from_str(&txt)?.bs.to_u128().to_string()
-        }
-        "show" => hex(mk::<A, K, S>(val(t)?).to_string().as_bytes()),
+        "try" => Kmer::<A, K, S>::try_from(a.slice.unwrap())?.bs.to_u128().to_string(),
+        "unsafefrom" => Kmer::<A, K, S>::unsafe_from_seqslice(a.slice.unwrap()).bs.to_u128().to_string(),
+        "fromstr" => Kmer::<A, K, S>::from_str(&a.text)?.bs.to_u128().to_string(),
+        "show" => hex(mk::<A, K, S>(a.v).to_string().as_bytes()),
         "len" => {
-            let k = mk::<A, K, S>(val(t)?);
+            let k = mk::<A, K, S>(a.v);
             format!("{} {}", k.len(), k.is_empty())
         }
-        "rotl" => {
-            let v = val(t)?;
-            let n = t.num()? as u32;
-            mk::<A, K, S>(v).rotated_left(n).bs.to_u128().to_string()
-        }
-        "rotr" => {
-            let v = val(t)?;
-            let n = t.num()? as u32;
-            mk::<A, K, S>(v).rotated_right(n).bs.to_u128().to_string()
-        }
-        "pushl" => {
-            let v = val(t)?;
-            let i = t.num()?;
-            mk::<A, K, S>(v).pushl(item::<A>(i)).bs.to_u128().to_string()
-        }
-        "pushr" => {
-            let v = val(t)?;
-            let i = t.num()?;
-            mk::<A, K, S>(v).pushr(item::<A>(i)).bs.to_u128().to_string()
-        }
-        "hash" => hash_events(&mk::<A, K, S>(val(t)?)),
+        "rotl" => mk::<A, K, S>(a.v).rotated_left(a.n as u32).bs.to_u128().to_string(),
+        "rotr" => mk::<A, K, S>(a.v).rotated_right(a.n as u32).bs.to_u128().to_string(),
+        "pushl" => mk::<A, K, S>(a.v).pushl(item::<A>(a.n)).bs.to_u128().to_string(),
+        "pushr" => mk::<A, K, S>(a.v).pushr(item::<A>(a.n)).bs.to_u128().to_string(),
+        "hash" => hash_events(&mk::<A, K, S>(a.v)),
         "eqk" => {
-            let a = mk::<A, K, S>(val(t)?);
-            let b = mk::<A, K, S>(val(t)?);
-            format!("{} {}", a == b, a != b)
+            let x = mk::<A, K, S>(a.v);
+            let y = mk::<A, K, S>(a.v2);
+            format!("{} {}", x == y, x != y)
         }
         "eq" => {
-            let p = t.next()?.to_string();
-            let k = mk::<A, K, S>(val(t)?);
-            let s = parse_s(t)?;
-            eval_s::<A, _>(&s, &mut |x| {
-                Ok(match p.as_str() {
-                    "slice" => format!("{}", PartialEq::<SeqSlice<A>>::eq(&k, x)),
-                    "refslice" => format!("{}", k == x),
-                    _ => return Err(Fail::BadOp("pairing".into())),
-                })
-            })?
+            let k = mk::<A, K, S>(a.v);
+            let x = a.slice.unwrap();
+            match a.pairing.as_str() {
+                "slice" => format!("{}", PartialEq::<SeqSlice<A>>::eq(&k, x)),
+                "refslice" => format!("{}", k == x),
+                _ => return Err(Fail::BadOp("pairing".into())),
+            }
         }
         "serde" => {
-            let k = mk::<A, K, S>(val(t)?);
+            let k = mk::<A, K, S>(a.v);
             let bin = bincode::serialize(&k).map_err(|e| Fail::BadOp(e.to_string()))?;
             let k2: Kmer<A, K, S> = bincode::deserialize(&bin).map_err(|e| Fail::BadOp(e.to_string()))?;
             let js = serde_json::to_string(&k).map_err(|e| Fail::BadOp(e.to_string()))?;
@@ -143,65 +125,185 @@ fn op_any<A: HC, const K: usize, S: HS>(op: &str, t: &mut Toks) -> R<String> {
 }
 
 /// operations that exist only for `usize`-backed k-mers
-fn op_usize<A: HC, const K: usize>(op: &str, t: &mut Toks) -> R<String> {
+pub fn op_usize<A: HC, const K: usize>(op: &str, a: &KArgs<A>) -> R<String> {
     if K * A::BITS as usize > 64 {
         return Err(Fail::Unsup);
     }
     Ok(match op {
-        "tryseq" => {
-            let v = eval_v::<A>(&parse_v(t)?)?;
-            Kmer::<A, K>::try_from(v)?.bs.to_string()
-        }
+        "tryseq" => Kmer::<A, K>::try_from(a.seq.as_ref().unwrap().clone())?.bs.to_string(),
         "deref" => {
-            let k = mk::<A, K, usize>(val(t)?);
+            let k = mk::<A, K, usize>(a.v);
             let r: &SeqSlice<A> = &k;
-            let a: &SeqSlice<A> = k.as_ref();
-            format!("{} {}", show(r), a == r)
+            let ar: &SeqSlice<A> = k.as_ref();
+            format!("{} {}", show(r), ar == r)
         }
-        "toseq" => {
-            let k = mk::<A, K, usize>(val(t)?);
-            show(&Seq::<A>::from(k))
+        "toseq" => show(&Seq::<A>::from(mk::<A, K, usize>(a.v))),
+        "int" => usize::from(&mk::<A, K, usize>(a.v)).to_string(),
+        "fromint" => Kmer::<A, K, usize>::from(a.v as usize).bs.to_string(),
+        "fromint64" => {
+            let x: Kmer<A, K, u64> = Kmer::from(a.v as u64);
+            let y: Kmer<A, K, u64> = Kmer::from(a.v as usize);
+            format!("{} {}", x.bs, y.bs)
         }
-        "int" => usize::from(&mk::<A, K, usize>(val(t)?)).to_string(),
-        "fromint" => Kmer::<A, K, usize>::from(val(t)? as usize).bs.to_string(),
-        "rev" => mk::<A, K, usize>(val(t)?).to_rev().bs.to_string(),
+        "rev" => mk::<A, K, usize>(a.v).to_rev().bs.to_string(),
         "revmut" => {
-            let mut k = mk::<A, K, usize>(val(t)?);
+            let mut k = mk::<A, K, usize>(a.v);
             k.rev();
             k.bs.to_string()
         }
-        "eqstr" => {
-            let k = mk::<A, K, usize>(val(t)?);
-            let h = t.hex()?;
-            let txt = String::from_utf8(h).map_err(|_| Fail::BadOp("utf8".into()))?;
-            format!("{}", k == txt.as_str())
-        }
-        "eqseq" => {
-            let k = mk::<A, K, usize>(val(t)?);
-            let v = eval_v::<A>(&parse_v(t)?)?;
-            format!("{}", k == v)
-        }
+        "eqstr" => format!("{}", mk::<A, K, usize>(a.v) == a.text.as_str()),
+        "eqseq" => format!("{}", mk::<A, K, usize>(a.v) == *a.seq.as_ref().unwrap()),
         "iterhash" => {
             // a k-mer yielded by the iterator hashes like the window it was copied from
-            let s = parse_s(t)?;
-            eval_s::<A, _>(&s, &mut |x| {
-                let mut out = vec![];
-                for (km, w) in x.kmers::<K>().zip(x.windows(K)) {
-                    out.push(format!("{}", hash_events(&km) == hash_events(w)));
-                }
-                Ok(if out.is_empty() { "-".into() } else { out.join(",") })
-            })?
+            let x = a.slice.unwrap();
+            let mut out = vec![];
+            for (km, w) in x.kmers::<K>().zip(x.windows(K)) {
+                out.push(format!("{}", hash_events(&km) == hash_events(w)));
+            }
+            if out.is_empty() { "-".into() } else { out.join(",") }
+        }
+        "kmers" => {
+            let v: Vec<String> = a.slice.unwrap().kmers::<K>().map(|km| km.bs.to_string()).collect();
+            if v.is_empty() { "-".to_string() } else { v.join(",") }
         }
         _ => return Err(Fail::BadOp(format!("kmer op {op}"))),
     })
 }
 
-pub fn kmers_list<A: HC>(k: usize, x: &SeqSlice<A>) -> R<String> {
-    with_k!(k, K => {
-        if K * A::BITS as usize > 64 { return Err(Fail::Unsup); }
-        let v: Vec<String> = x.kmers::<K>().map(|km| km.bs.to_string()).collect();
-        Ok(if v.is_empty() { "-".to_string() } else { v.join(",") })
+pub fn ord_any<A: HC + Ord, const K: usize, S: HS + Ord>(op: &str, a: &KArgs<A>) -> R<String> {
+    if K * A::BITS as usize > S::SBITS {
+        return Err(Fail::Unsup);
+    }
+    Ok(match op {
+        "cmp" => {
+            let x = mk::<A, K, S>(a.v);
+            let y = mk::<A, K, S>(a.v2);
+            let o = match x.cmp(&y) {
+                std::cmp::Ordering::Less => "lt",
+                std::cmp::Ordering::Equal => "eq",
+                std::cmp::Ordering::Greater => "gt",
+            };
+            format!("{o} {} {} {:?}", x < y, x <= y, x.partial_cmp(&y) == Some(x.cmp(&y)))
+        }
+        _ => return Err(Fail::Unsup),
     })
+}
+
+pub fn ord_usize<A: HC + Ord, const K: usize>(op: &str, a: &KArgs<A>) -> R<String> {
+    if K * A::BITS as usize > 64 {
+        return Err(Fail::Unsup);
+    }
+    Ok(match op {
+        "minmax" => {
+            let x = a.slice.unwrap();
+            let mn = x.kmers::<K>().min().map(|k| k.bs.to_string()).unwrap_or("none".into());
+            let mx = x.kmers::<K>().max().map(|k| k.bs.to_string()).unwrap_or("none".into());
+            let mut v: Vec<Kmer<A, K>> = x.kmers::<K>().collect();
+            v.sort();
+            let sorted: Vec<String> = v.iter().map(|k| k.bs.to_string()).collect();
+            format!("{mn} {mx} {}", if sorted.is_empty() { "-".to_string() } else { sorted.join(",") })
+        }
+        _ => return Err(Fail::Unsup),
+    })
+}
+
+pub fn dna_usize<const K: usize>(op: &str, a: &KArgs<Dna>) -> R<String> {
+    if K * 2 > 64 {
+        return Err(Fail::Unsup);
+    }
+    let km = mk::<Dna, K, usize>(a.v);
+    Ok(match op {
+        "comp" => km.to_comp().bs.to_string(),
+        "revcomp" => km.to_revcomp().bs.to_string(),
+        "compmut" => {
+            let mut x = km;
+            x.comp();
+            x.bs.to_string()
+        }
+        "revcompmut" => {
+            let mut x = km;
+            x.revcomp();
+            x.bs.to_string()
+        }
+        "canon" => {
+            let rc = km.to_revcomp();
+            let c1 = std::cmp::min(km, rc);
+            let c2 = std::cmp::min(rc, rc.to_revcomp());
+            format!("{} {}", c1.bs, c2.bs)
+        }
+        _ => return Err(Fail::Unsup),
+    })
+}
+
+/// `&*Kmer::<A,K>::try_from(x)?` handed to the continuation
+pub fn op_kd<A: HC, const K: usize, T>(x: &SeqSlice<A>, k: &mut dyn FnMut(&SeqSlice<A>) -> R<T>) -> R<T> {
+    let km: Kmer<A, K> = Kmer::try_from(x)?;
+    k(&km)
+}
+
+/// `Seq::from(Kmer::<A,K>::try_from(x)?)`
+pub fn op_ofkmer<A: HC, const K: usize>(x: &SeqSlice<A>) -> R<Seq<A>> {
+    let km: Kmer<A, K> = Kmer::try_from(x)?;
+    Ok(Seq::<A>::from(km))
+}
+
+pub const USIZE_OPS: &[&str] = &["tryseq", "deref", "toseq", "int", "fromint", "fromint64", "rev", "revmut", "eqstr", "eqseq", "iterhash", "kmers"];
+pub const DNA_OPS: &[&str] = &["comp", "revcomp", "compmut", "revcompmut", "canon"];
+pub const ORD_OPS: &[&str] = &["cmp", "minmax"];
+
+/// per-codec dispatch over exactly the `K`s that fit (lists by symbol width)
+#[macro_export]
+macro_rules! kdispatch_impl {
+    ([$($k64:literal)*], [$($k128:literal)*], $ord:tt, $dna:tt) => {
+        fn kd_dispatch<T>(k: usize, x: &bio_seq::prelude::SeqSlice<Self>, cont: &mut dyn FnMut(&bio_seq::prelude::SeqSlice<Self>) -> $crate::eval::R<T>) -> $crate::eval::R<T> {
+            match k { $($k64 => $crate::kmer::op_kd::<Self, $k64, T>(x, cont),)* _ => Err($crate::eval::Fail::Unsup) }
+        }
+        fn ofkmer_dispatch(k: usize, x: &bio_seq::prelude::SeqSlice<Self>) -> $crate::eval::R<bio_seq::prelude::Seq<Self>> {
+            match k { $($k64 => $crate::kmer::op_ofkmer::<Self, $k64>(x),)* _ => Err($crate::eval::Fail::Unsup) }
+        }
+        fn kdispatch(op: &str, k: usize, st: &str, a: &$crate::kmer::KArgs<Self>) -> $crate::eval::R<String> {
+            use $crate::kmer::*;
+            use $crate::eval::Fail;
+            if USIZE_OPS.contains(&op) {
+                if st != "usize" { return Err(Fail::Unsup); }
+                return match k { $($k64 => op_usize::<Self, $k64>(op, a),)* _ => Err(Fail::Unsup) };
+            }
+            if DNA_OPS.contains(&op) {
+                if st != "usize" { return Err(Fail::Unsup); }
+                $crate::kdispatch_impl!(@dna $dna, op, k, a, [$($k64)*]);
+            }
+            if ORD_OPS.contains(&op) {
+                $crate::kdispatch_impl!(@ord $ord, op, k, st, a, [$($k64)*], [$($k128)*]);
+            }
+            match st {
+                "usize" => match k { $($k64 => op_any::<Self, $k64, usize>(op, a),)* _ => Err(Fail::Unsup) },
+                "u64" => match k { $($k64 => op_any::<Self, $k64, u64>(op, a),)* _ => Err(Fail::Unsup) },
+                "u128" => match k { $($k128 => op_any::<Self, $k128, u128>(op, a),)* _ => Err(Fail::Unsup) },
+                _ => Err(Fail::BadOp("storage".into())),
+            }
+        }
+    };
+    (@dna yes, $op:ident, $k:ident, $a:ident, [$($k64:literal)*]) => {
+        return match $k { $($k64 => dna_usize::<$k64>($op, $a),)* _ => Err(Fail::Unsup) }
+    };
+    (@dna no, $op:ident, $k:ident, $a:ident, [$($k64:literal)*]) => {
+        return Err(Fail::Unsup)
+    };
+    (@ord yes, $op:ident, $k:ident, $st:ident, $a:ident, [$($k64:literal)*], [$($k128:literal)*]) => {
+        if $op == "minmax" {
+            if $st != "usize" { return Err(Fail::Unsup); }
+            return match $k { $($k64 => ord_usize::<Self, $k64>($op, $a),)* _ => Err(Fail::Unsup) };
+        }
+        return match $st {
+            "usize" => match $k { $($k64 => ord_any::<Self, $k64, usize>($op, $a),)* _ => Err(Fail::Unsup) },
+            "u64" => match $k { $($k64 => ord_any::<Self, $k64, u64>($op, $a),)* _ => Err(Fail::Unsup) },
+            "u128" => match $k { $($k128 => ord_any::<Self, $k128, u128>($op, $a),)* _ => Err(Fail::Unsup) },
+            _ => Err(Fail::BadOp("storage".into())),
+        }
+    };
+    (@ord no, $op:ident, $k:ident, $st:ident, $a:ident, [$($k64:literal)*], [$($k128:literal)*]) => {
+        return Err(Fail::Unsup)
+    };
 }
 
 pub fn query<A: HC>(q: &str, t: &mut Toks) -> R<String> {
@@ -209,100 +311,56 @@ pub fn query<A: HC>(q: &str, t: &mut Toks) -> R<String> {
         "kmers" => {
             let k = t.num()?;
             let s = parse_s(t)?;
-            eval_s::<A, _>(&s, &mut |x| kmers_list::<A>(k, x))
+            eval_s::<A, _>(&s, &mut |x| {
+                let a = KArgs::<A> { v: 0, v2: 0, n: 0, text: String::new(), pairing: String::new(), slice: Some(x), seq: None };
+                A::kdispatch("kmers", k, "usize", &a)
+            })
         }
         "kmer" => {
             let op = t.next()?.to_string();
             let k = t.num()?;
             let st = t.next()?.to_string();
+            let mut a = KArgs::<A> { v: 0, v2: 0, n: 0, text: String::new(), pairing: String::new(), slice: None, seq: None };
+            let utf8 = |h: Vec<u8>| String::from_utf8(h).map_err(|_| Fail::BadOp("utf8".into()));
             match op.as_str() {
-                "tryseq" | "deref" | "toseq" | "int" | "fromint" | "rev" | "revmut" | "eqstr" | "eqseq" | "iterhash" => {
-                    if st != "usize" {
-                        return Err(Fail::Unsup);
-                    }
-                    with_k!(k, K => op_usize::<A, K>(&op, t))
+                "try" | "unsafefrom" | "iterhash" | "minmax" => {
+                    let s = parse_s(t)?;
+                    return eval_s::<A, _>(&s, &mut |x| {
+                        let a = KArgs::<A> { v: 0, v2: 0, n: 0, text: String::new(), pairing: String::new(), slice: Some(x), seq: None };
+                        A::kdispatch(&op, k, &st, &a)
+                    });
                 }
-                "comp" | "revcomp" | "compmut" | "revcompmut" | "cmp" | "minmax" | "canon" => A::kmer_special(&op, k, &st, t),
-                "fromint64" => {
-                    // From<u64> for Kmer<_,_,u64>, From<usize> for Kmer<_,_,u64>
-                    let v = val(t)?;
-                    with_k!(k, K => {
-                        let a: Kmer<A, K, u64> = Kmer::from(v as u64);
-                        let b: Kmer<A, K, u64> = Kmer::from(v as usize);
-                        Ok(format!("{} {}", a.bs, b.bs))
-                    })
+                "eq" => {
+                    a.pairing = t.next()?.to_string();
+                    a.v = val(t)?;
+                    let s = parse_s(t)?;
+                    return eval_s::<A, _>(&s, &mut |x| {
+                        let a2 = KArgs::<A> { v: a.v, v2: 0, n: 0, text: String::new(), pairing: a.pairing.clone(), slice: Some(x), seq: None };
+                        A::kdispatch(&op, k, &st, &a2)
+                    });
                 }
-                _ => match st.as_str() {
-                    "usize" => with_k!(k, K => op_any::<A, K, usize>(&op, t)),
-                    "u64" => with_k!(k, K => op_any::<A, K, u64>(&op, t)),
-                    "u128" => crate::with_k128!(k, K => op_any::<A, K, u128>(&op, t)),
-                    _ => Err(Fail::BadOp("storage".into())),
-                },
+                "tryseq" => a.seq = Some(eval_v::<A>(&parse_v(t)?)?),
+                "fromstr" => a.text = utf8(t.hex()?)?,
+                "rotl" | "rotr" | "pushl" | "pushr" => {
+                    a.v = val(t)?;
+                    a.n = t.num()?;
+                }
+                "eqk" | "cmp" => {
+                    a.v = val(t)?;
+                    a.v2 = val(t)?;
+                }
+                "eqstr" => {
+                    a.v = val(t)?;
+                    a.text = utf8(t.hex()?)?;
+                }
+                "eqseq" => {
+                    a.v = val(t)?;
+                    a.seq = Some(eval_v::<A>(&parse_v(t)?)?);
+                }
+                _ => a.v = val(t)?,
             }
+            A::kdispatch(&op, k, &st, &a)
         }
         _ => crate::misc::query::<A>(q, t),
     }
-}
-
-/// ordering on k-mers needs `A: Ord`; complement needs `Kmer<Dna, K, usize>`
-pub fn special_ord<A: HC + Ord>(op: &str, k: usize, st: &str, t: &mut Toks) -> R<String> {
-    fn ord3<A: HC + Ord, const K: usize, S: HS + Ord>(t: &mut Toks) -> R<String> {
-        if K * A::BITS as usize > S::SBITS {
-            return Err(Fail::Unsup);
-        }
-        let a = mk::<A, K, S>(val(t)?);
-        let b = mk::<A, K, S>(val(t)?);
-        let o = match a.cmp(&b) {
-            std::cmp::Ordering::Less => "lt",
-            std::cmp::Ordering::Equal => "eq",
-            std::cmp::Ordering::Greater => "gt",
-        };
-        Ok(format!("{o} {} {} {:?}", a < b, a <= b, a.partial_cmp(&b) == Some(a.cmp(&b))))
-    }
-    match op {
-        "cmp" => match st {
-            "usize" => with_k!(k, K => ord3::<A, K, usize>(t)),
-            "u64" => with_k!(k, K => ord3::<A, K, u64>(t)),
-            "u128" => crate::with_k128!(k, K => ord3::<A, K, u128>(t)),
-            _ => Err(Fail::BadOp("storage".into())),
-        },
-        "minmax" => {
-            let s = parse_s(t)?;
-            eval_s::<A, _>(&s, &mut |x| {
-                with_k!(k, K => {
-                    if K * A::BITS as usize > 64 { return Err(Fail::Unsup); }
-                    let mn = x.kmers::<K>().min().map(|k| k.bs.to_string()).unwrap_or("none".into());
-                    let mx = x.kmers::<K>().max().map(|k| k.bs.to_string()).unwrap_or("none".into());
-                    let mut v: Vec<Kmer<A, K>> = x.kmers::<K>().collect();
-                    v.sort();
-                    let sorted: Vec<String> = v.iter().map(|k| k.bs.to_string()).collect();
-                    Ok(format!("{mn} {mx} {}", if sorted.is_empty() { "-".to_string() } else { sorted.join(",") }))
-                })
-            })
-        }
-        _ => Err(Fail::Unsup),
-    }
-}
-
-pub fn special_dna(op: &str, k: usize, st: &str, t: &mut Toks) -> R<String> {
-    if st != "usize" {
-        return Err(Fail::Unsup);
-    }
-    with_k!(k, K => {
-        if K * 2 > 64 { return Err(Fail::Unsup); }
-        let km = mk::<Dna, K, usize>(val(t)?);
-        Ok(match op {
-            "comp" => km.to_comp().bs.to_string(),
-            "revcomp" => km.to_revcomp().bs.to_string(),
-            "compmut" => { let mut x = km; x.comp(); x.bs.to_string() }
-            "revcompmut" => { let mut x = km; x.revcomp(); x.bs.to_string() }
-            "canon" => {
-                let rc = km.to_revcomp();
-                let c1 = std::cmp::min(km, rc);
-                let c2 = std::cmp::min(rc, rc.to_revcomp());
-                format!("{} {}", c1.bs, c2.bs)
-            }
-            _ => return Err(Fail::Unsup),
-        })
-    })
 }
